@@ -4,19 +4,30 @@ PROP = dict(
     level="exploration",
     stages=[
         dict(name="c04_json", src="harness/c04_json_roundtrip.cc", deps=("harness/c04/tree.hh", "harness/c05/refjson.hh"),
-             shards_quick=8, shards_thorough=16, timeout_quick=240, timeout_thorough=1500),
+             shards_quick=8, shards_thorough=16, timeout_quick=480, timeout_thorough=2400),
         dict(name="c04_py", kind="pydriver", driver="oracle/c04_json_py.py", shim="shim/c04_shim.cc",
              deps=("harness/c04/tree.hh", "shim/shim.hh", "oracle/c04_tree.py", "oracle/hyp_common.py"),
              shards_quick=8, shards_thorough=16, timeout_quick=400, timeout_thorough=1500),
     ],
     rule=("A case is one value tree; each tree is evaluated under all 64 SerializeOption masks (evaluations count tree x mask). Trees "
           "come from (i) a fixed list - boundary floats (1e20, 2e6, 1e-7, 999999.5, DBL_MAX, DBL_MIN, +-0.0 ...), INT64_MIN/MAX, every "
-          "byte value as a one-byte string and key, the 256-byte string, empty containers, each bare and inside a list - enumerated "
-          "completely; (ii) a rapidcheck recursive generator (depth <= 6, <= 44 nodes: null, bools, boundary-biased int64, finite normal "
+          "byte value as a one-byte string and key, the 256-byte string, empty containers, each of ~115 well-known multi-byte sequences "
+          "(UTF-8 BOM, U+2028/U+2029, NBSP, NEL, first/last code point of every UTF-8 length, U+FFFD, non-characters, emoji, CESU-8 "
+          "surrogates, overlong / out-of-range / truncated UTF-8, UTF-16 BOMs, CRLF, ESC[ sequences, C1 controls, </script> and other "
+          "markup, texts that look like \\u / \\x escapes, comments, JSON literals or structure, printf directives) alone / at the "
+          "start / at the end / in the middle of a text and every ordered pair of them adjacent, as string and as key, each bare "
+          "and inside a list - enumerated completely; (ii) a rapidcheck recursive generator (depth <= 6, <= 44 nodes: null, bools, boundary-biased int64, finite normal "
           "doubles from random bit patterns / 1..6 digits x 10^e with e in [-307,302] / a special list, byte strings and keys over all 256 "
-          "values with boosted quote, backslash, control bytes, 0x7F, 0x80-0xFF and the empty string, empty containers); (iii) a chain "
-          "generator nesting lists/dicts up to depth 100; (iv) Hypothesis-generated trees serialized under the four standard masks and "
-          "read by Python's json. Non-trivial: the tree has a container and (a float whose %g form has an exponent, or a string/key byte "
+          "values with boosted quote, backslash, control bytes, 0x7F, 0x80-0xFF and the empty string, one string/key in five with 1..3 "
+          "of the well-known sequences spliced in at the start / end / a random position, empty containers); (iii) a chain "
+          "generator nesting lists/dicts up to depth 100; (iii-b) subcheck `deep`: chains of 101..5200 (thorough 10000) containers - "
+          "lists only, dictionaries only, alternating, mixed by hash, runs; sibling entries on no / 1 in 16 / 1 in 4 levels; depths drawn "
+          "around round decimal and binary numbers (+-2), uniformly, and size-scaled; enumerated: depths 101, 250, 500, 999, 1000, 1001, "
+          "1500, 2000, 3000, 5000 (thorough also 700, 7000, 10000) x 4 level-kind styles x 2 leaves (one leaf per style beyond depth 1001) - run on a thread with a 512 MiB stack, "
+          "under the option masks listed in the case: all 64 up to depth 120, the 32 without FORMAT + 2 with FORMAT up to 400, "
+          "7 without FORMAT (none, SORT_DICT_KEYS, all five others, four drawn) beyond (the serializer copies a sub-tree's text at every level: FORMAT costs "
+          "~4 x depth^3 bytes of copying); (iv) Hypothesis-generated trees (strings and keys also assembled from the well-known "
+          "sequences) serialized under the four standard masks and read by Python's json. Non-trivial: the tree has a container and (a float whose %g form has an exponent, or a string/key byte "
           "outside 0x20-0x7E, or an empty container). Subcheck `assign` (1 evaluation per case): a case is a pair (target tree, source tree); "
           "`target = source` is executed on a target that already holds the target tree - null, scalar, string, list, an unrelated tree, "
           "or a structural variation of the source (keys / items dropped, added, replaced, recursively) - also as an element of a list "
@@ -35,9 +46,12 @@ PROP = dict(
                  "'standard-compliant' output = option masks within {FORMAT, SORT_DICT_KEYS}, the only options JSON.hh documents as such",
                  "Python json reads \\u00XX as U+00XX; strings are compared as latin-1 bytes",
                  "assignment where the source is the target itself or a part of it (a = a, a = a.at(0)) is left open by the statement and not generated",
+                 "how much stack one nesting level costs is not part of the property: trees deeper than 100 levels are processed on a thread "
+                 "with a 512 MiB stack (the ASan build uses ~5 KiB per level in the parser); FORMAT is combined with depths up to 400 "
+                 "(quick) / 1001 (thorough, FORMAT alone) only, because its cost is cubic in the depth",
                  "the outcome of parsing the texts that precede a round trip in `after_reject` (accept or throw a std::exception) is not asserted here; C05 owns the parser's error behaviour"],
     min_evaluations_quick=200000,
-    min_per_check_quick={"assign": 20000, "after_reject": 20000},
+    min_per_check_quick={"assign": 20000, "after_reject": 20000, "deep": 1000},
     engine="rapidcheck + exhaustive enumerators + Hypothesis (Python json as independent reader)",
     technique=("property-based round-trip testing: value trees built through the public constructors are serialized under all 64 option "
                "masks by the real code (ASan+UBSan), parsed back and compared with an independent model tree through the public accessors; "
